@@ -111,6 +111,20 @@ CHECKS = {
             "acknowledged + in-flight operations (Durable), and the final image recovers exactly the served state.",
             "Interleavings at the granularity of the scheduling points only (not every instruction); crash images are plain copies "
             "(no torn-write model here; that is C13). 2-3 threads, one operation each (two for the dropper). " + TB, "7 C15"),
+    "C18": ("incr", "TLC-enumerated histories (MC_Incr.tla, laws of Incr.tla model-checked) run twice on the real Handler (incremental "
+            "maintenance switched on / never); every step judged by IncrTrace.tla against Incr!Apply18 and Datalog!Answer",
+            "model_checking",
+            "Incr.tla: base facts, rules as name -> ordered clause texts (register / remove clause i / drop), a flag 'incremental on' that "
+            "Ans18 (Datalog!Answer of current rules over current facts) does not read. MC_Incr enumerates every history of length 3 "
+            "(thorough 4) over {ins/del r(1), ins r(2), d<-r, d<-s, c<-d, n<-s,!d, remove d 1, drop d, enable, restart}; these plus seeded "
+            "random histories (10-clause menu: rules over derived relations two levels deep, negation on derived, recursion) run on two "
+            "real Handlers; after every step every relation is queried. Accepted iff the observed facts and per-rule clause lists are "
+            "the specification's in both runs and every answer of the run with incremental maintenance has the outcome and rows of the "
+            "reference run; agreement with Datalog!Answer is recorded for every step where it is defined (0 disagreements on this tree).",
+            "On this tree auto-materialization on rule registration always fails (its query text '?name(V0..)' is rejected as an unsafe "
+            "rule), so no materialization is ever stored through the public paths and the property holds for lack of the mechanism; the "
+            "check is the regression guard for the day that path is repaired. Incremental maintenance is switched on through "
+            "KnowledgeGraph::enable_incremental (what index creation calls). " + TB, "7 C18"),
     "C19": ("store-replay", "random histories on the real engine with a consistent read of the incremental engine after every step "
             "(StoreTrace.tla) + TLC-enumerated reader/writer interleavings forced on real threads (SchedTrace.tla)",
             "model_checking",
@@ -258,6 +272,9 @@ ENGINES.append({"name": "laws", "path": "tools/eng_laws.py", "serves_properties"
                                   "IndexTrace.tla, VecIndexTrace.tla, LawsTrace.tla"})
 ENGINES.append({"name": "proof", "path": "tools/eng_proof.py", "serves_properties": ["C21", "C22", "C23"],
                 "kind_free_text": ".why / .why_not answers of the real Handler judged by spec/ProofTrace.tla over Datalog!Model"})
+ENGINES.append({"name": "incr", "path": "tools/eng_incr.py", "serves_properties": ["C18"],
+                "kind_free_text": "spec/MC_Incr.tla enumerates histories of fact writes / rule registration, removal, drop / incremental on; "
+                                  "each runs twice on the real Handler; spec/IncrTrace.tla judges state and answers against Incr.tla"})
 ENGINES.append({"name": "session", "path": "tools/eng_session.py", "serves_properties": ["C10"],
                 "kind_free_text": "spec/MC_Session.tla enumerates request interleavings of session scripts; the harness submits "
                                   "them to the real Handler; spec/SessionTrace.tla judges state and answers against Session.tla"})
